@@ -54,12 +54,21 @@ PROPS = {
         ],
     },
     "C14": {
-        "verus": ["c14_ids"],
-        "kani": [],
+        # c13_framing + the Kani LE harnesses: a query id is the stable hash of the query key, so "distinct keys get distinct query ids"
+        # rests on the key's byte stream being injective (C13) -- re-established here;
+        # c11_rocksdb / c11_fjall: "no two different queries share a slot in the store" rests on every store operation addressing the
+        # column (type id, kind) of its column type -- the operations layer of both backends is re-verified here
+        "verus": ["c14_ids", "c13_framing", "c11_rocksdb", "c11_fjall"],
+        "kani": [
+            {"crate": "c13", "kind": "complete", "harnesses": ['le_u8', 'le_i8', 'le_u16', 'le_i16', 'le_u32', 'le_i32', 'le_u64', 'le_i64', 'le_u128', 'le_i128', 'le_usize', 'le_isize', 'bool_char_images'], "tiers": ("quick", "thorough"), "jobs": 12,
+             "bound": "none: full-domain symbolic inputs, loop bounded by the byte width"},
+        ],
         "native": [
             {"name": "type_universe_distinct_and_stable", "bin": "replay_c14", "crate": "replay", "twice": True,
              "pre": "python3 lib/gen_c14_universe.py out/aux/c14_universe.rs", "tiers": ("quick", "thorough"),
              "bound": "6264 types of a generated constructor-closed universe (EVERY leaf type that has an Identifiable impl incl. the smallvec/bitvec features, all unary constructors over the main leaves, nestings to depth 3, binary constructors in both argument orders, permuted tuples, array lengths, derived user types): ids evaluated on the real crate, pairwise distinct, identical in two separate processes"},
+            {"name": "store_addressing_through_both_write_paths", "bin": "replay_c11", "crate": "replay_db", "release": False, "tiers": ("quick", "thorough"), "thorough_seeds": 2,
+             "bound": "the C11 real-backend run (direct and serialization-buffer write paths, first touch of a column after a reopen, several operations on one slot in one buffer, empty encodings): every operation must land in the column of its own column type"},
             {"name": "store_slots_by_type_id", "bin": "replay_c14_store", "crate": "replay_db", "release": False, "tiers": ("quick", "thorough"), "thorough_seeds": 1,
              "bound": "the REAL RocksDB and Fjall backends: 24 column types with crafted stable type ids whose renderings are easy to confuse (leading-zero halves, digits moving between the 64-bit halves, swapped / zero halves, prefixes of one another), both column kinds: each column holds its own index, read back in the same session and after a reopen (column-family / keyspace names are derived from the id by format!: not under contract)"},
         ],
@@ -147,7 +156,7 @@ PROPS = {
         ],
         "native": [
             {"name": "real_backends_scan_and_point_reads", "bin": "replay_c11", "crate": "replay_db", "release": False, "tiers": ("quick", "thorough"), "thorough_seeds": 6, "timeout": 5400,
-             "bound": "the REAL RocksDB and Fjall backends (temporary directories): seeded random batches over prefix-related / empty / 0xFF-heavy / >32-bit keys, wide columns with both discriminant encodings and key-of-set columns, point reads and member scans compared with a reference map, before and after reopen; 1 seed in the quick tier, 6 in the thorough tier (builds RocksDB: about 3 minutes cold, 1 s warm)"},
+             "bound": "the REAL RocksDB and Fjall backends (temporary directories): seeded random batches over prefix-related / empty / 0xFF-heavy / >32-bit keys, wide columns with both discriminant encodings and key-of-set columns, point reads and member scans compared with a reference map, direct and serialization-buffer write paths, first touch after a reopen, several operations on one slot in one buffer, empty value encodings, 128-bit boundary keys, before and after reopen; 1 seed in the quick tier, 6 in the thorough tier (builds RocksDB: about 3 minutes cold, 1 s warm)"},
         ],
         "witness": witness.c11,
         "assumptions": [
